@@ -35,6 +35,12 @@ def gen_cases(tier, seed, configs):
         upper = r.randint(0, H) if r.random() < 0.5 else (1 if periodic else 2)
         ex = r.choice(["seq", "seq", "omp", "omp", "starpu", "specx"])      # "all executors": StarPU and Specx under their mock runtimes
         extra = " sched=2 seed=%d workers=%d" % (r.randrange(10 ** 6), r.choice([1, 3, 8])) if ex != "seq" else ""
+        if ex in ("seq", "omp") and r.random() < 0.4:
+            # the executor's other constructors: (configuration, kernel), (configuration) — both with the documented default level 2 — and (configuration, kernel, level)
+            ct = r.choice([1, 2, 3])
+            if ct in (1, 2):
+                upper = 2
+            extra += " ctor=%d" % ct
         b = "build bs=%d mode=%d" % (bs, mode)
         stagings = [[63], [P2M | M2M, M2L | P2P, L2L | L2P]] + [random_partition(r) for _ in range(3)]
         body = []
@@ -132,6 +138,11 @@ def tsm_family(rep, tier, seed, replay=None):
             upper = r.randint(0, H) if r.random() < 0.5 else (1 if periodic else 2)
             ex = r.choice(["tsm", "tsm", "omptsm", "omptsm", "starputsm", "specxtsm"])
             extra = " sched=2 seed=%d workers=%d" % (r.randrange(10 ** 6), r.choice([1, 3, 8])) if ex != "tsm" else ""
+            if ex == "tsm" and r.random() < 0.4:
+                ct = r.choice([1, 2, 3])
+                if ct in (1, 2):
+                    upper = 2
+                extra += " ctor=%d" % ct
             stagings = [[63], [P2M | M2M, M2L | P2P, L2L | L2P]] + [random_partition(r) for _ in range(3)]
             body = []
             for si, st in enumerate(stagings):
